@@ -1,3 +1,6 @@
 import UVerifProofs.Lemmas.Quire
 import UVerifProofs.Props.C01
 import UVerifProofs.Props.C05
+import UVerifProofs.Props.C03
+import UVerifProofs.Props.C04
+import UVerifProofs.Props.C06
